@@ -1,6 +1,7 @@
 """C01 -- die decomposition is an exact tiling of the die."""
 import itertools
 from fv import symx, shimall
+import frame.die.die as _DIE
 from fv.symx import And, Or, Not, Eq, Implies, Iff, Count
 from fv import geo
 from frame.geometry.geometry import Rectangle
@@ -17,13 +18,13 @@ DELTA = 0.01
 BOUNDS = {'quick': 'die height 4 (then transposed: width 4), die extent on the other axis and all region boundaries on that axis '
                    'symbolic breakpoints 0<b1<...<W (gaps in [0.01,250]); k<=1 region on 16 placements x 3 kinds (blockage, '
                    'specialised, fixed module) and k=2 regions on 14 placements with <=3 breakpoints; k=3 regions at concrete places in all 60 mixed orders of the tags #/dsp/bram/fixed; bands from {full, lower, middle, upper, lower half, upper half}; '
-                   'negative harness: one region sticking out, two regions overlapping',
+                   'negative harness: one region sticking out, two regions overlapping; binary64 kernel: decimal coordinates n/10, n/100 with n < 2^8 (2^10-2^11 thorough)',
           'thorough': 'k=2 all generated placements with all tag pairs, k=3 on stacked/side-by-side placements'}
 ASSUMPTIONS = ['R model; tolerances preset 1e-10/1e-5; distinct boundary coordinates differ by >= 0.01',
                'one axis symbolic at a time']
-NOT_DECIDED = ['binary64 rounding of decimal coordinates (see the F kernel in the thorough tier)', 'both axes symbolic at once',
+NOT_DECIDED = ['binary64 rounding beyond the inside test of decimal coordinates n/10, n/100 (the fp-border kernel runs the real Die._check_rectangles inside test on z3 FloatingPoint terms)', 'both axes symbolic at once',
                'more than 3 regions', 'the "<w>x<h>" string form and YAML text']
-MUST_REACH = ['accepted', 'rejected-invalid']
+MUST_REACH = ['accepted', 'rejected-invalid', 'fp-border']
 BANDS = {'full': (0, 4), 'lower': (0, 1), 'middle': (1, 3), 'upper': (3, 4), 'lowhalf': (0, 2), 'uphalf': (2, 4)}
 KINDS = ['#', 'dsp', 'fixed']
 
@@ -102,6 +103,10 @@ def cases(tier):
             for tr in (0, 1):
                 cs.append(dict(kind='outside', nb=2, regions=[[1, 2, band, kind]], transposed=tr))
     cs.append(dict(kind='outside-band', nb=2, regions=[[0, 1, 'lower', '#']], transposed=0))
+    # binary64 kernel: decimal coordinates (n/10, n/100) touching the die border
+    for axis in ('x', 'y'):
+        for bits, scale in ((8, 10), (8, 100)) if tier == 'quick' else ((10, 10), (10, 100), (11, 1000)):
+            cs.append(dict(kind='fp-border', axis=axis, bits=bits, scale=scale, slow=(200 if tier == 'quick' else 1500)))
     if tier == 'thorough':
         for nb, regs in ((4, [(0, 1), (1, 2), (3, 4)]), (3, [(0, 3), (1, 2), (1, 2)]), (5, [(1, 2), (2, 4), (3, 5)])):
             for bands in (('lower', 'middle', 'upper'), ('lowhalf', 'uphalf', 'uphalf'), ('full', 'full', 'full')):
@@ -117,7 +122,59 @@ def cases(tier):
 OPTS = {'quick': dict(max_paths=30000, budget_s=250), 'thorough': dict(max_paths=300000, budget_s=1500)}
 
 
+def ctx_class(case):
+    if case['kind'] == 'fp-border':
+        from fv import symf
+        return symf.FCtx
+    return None
+
+
+def body_fp_border(I, case):
+    """binary64: a region with decimal coordinates that is mathematically inside the die (possibly touching its border) must not be
+    judged outside by the real inside test of Die._check_rectangles"""
+    import types
+    from frame.die.yaml_parse_die import parse_die_rectangle
+    from frame.geometry.geometry import Point, Shape
+    bits, scale = case['bits'], case['scale']
+    if I.mode == 'symbolic':
+        from fv import symf
+        symf.FCtx.slow_s = case.get('slow', 200)
+    a, W = I.decimal('a', bits, scale)
+    b, x = I.decimal('b', bits, scale)
+    c, w = I.decimal('c', bits, scale)
+    if I.mode == 'symbolic':
+        import z3
+        ze = lambda v: z3.ZeroExt(4, v)
+        I.assume(symx.SymBool(z3.And(z3.ULE(2 * ze(b) + ze(c), 2 * ze(a)), z3.UGE(2 * ze(b), ze(c)), z3.UGT(c, 0), z3.UGT(a, 0))))
+    else:
+        I.assume(2 * b + c <= 2 * a and 2 * b >= c and c > 0 and a > 0)
+    other = 1.0
+    if case['axis'] == 'x':
+        region = parse_die_rectangle([x, other / 2, w, other, '#'])
+        width, height = W, other
+    else:
+        region = parse_die_rectangle([other / 2, x, other, w, '#'])
+        width, height = other, W
+    if I.mode == 'symbolic':
+        eps = symx.sym_min(width, height) * 10e-12
+    else:
+        eps = min(width, height) * 10e-12
+    fake = types.SimpleNamespace(specialized_regions=[], ground_regions=[], blockages=[region], fixed_regions=[], width=width, height=height,
+                                 _epsilon=eps)
+    I.reached('fp-border')
+    try:
+        Die._check_rectangles(fake)
+    except AssertionError as e:
+        if str(e).startswith('Some rectangle'):
+            I.detail = 'a region inside the die was judged outside'
+            I.prove('decimal-region-inside-die-not-judged-outside', False)
+            return
+    I.prove('decimal-region-inside-die-not-judged-outside', True)
+
+
 def body(I, case):
+    if case['kind'] == 'fp-border':
+        return body_fp_border(I, case)
     nb = case['nb']
     tr = case['transposed']
     b = [0.0]
